@@ -135,8 +135,9 @@ def project_run(r, named):
             if l == hier[-1]:
                 al = row[col[f'{rl(l)}_alias']]
                 if named:
-                    m = re.fullmatch(rf'a?{l}(\d+)', al)
-                    alias = 2000 + int(m.group(1)) if m else -7
+                    m = re.fullmatch(rf'a{l}(\d+)', al)
+                    m0 = re.fullmatch(r'\d+', al)              # numeric aliases are counted from 0
+                    alias = 2000 + int(m.group(1)) if m else 2001 + int(al) if m0 else -7
                 else:
                     try:
                         alias = nm.inv_node(l, al)
